@@ -272,10 +272,24 @@ fn run_inner(rng: &mut Rng, cfg: &Cfg, tag: u64, rep: &mut Report) -> Outcome {
                 } else {
                     // overwrite a slot with a clone of another (drops the old instance)
                     let dst = rng.usize_below(slots.len());
-                    if dst != si {
+                    if dst != si && rng.chance(1, 2) {
                         let c = Slot { h: slots[si].h.clone(), m: slots[si].m.clone() };
                         slots[dst] = c;
                         ops.push(format!("s{}=s{}.clone()", dst, si));
+                    } else if dst != si {
+                        // Clone::clone_from: restore a used working copy in place from another one
+                        let (srch, srcm) = (slots[si].h.clone(), slots[si].m.clone());
+                        match guarded(|| {
+                            let mut d = slots[dst].h.clone();
+                            d.clone_from(&srch);
+                            d
+                        }) {
+                            Ok(d) => slots[dst].h = d,
+                            Err(msg) => fail!("clone_from/panic", "s{}.clone_from(&s{}) panicked: {}", dst, si, msg),
+                        }
+                        slots[dst].m = srcm;
+                        ops.push(format!("s{}.clone_from(&s{})", dst, si));
+                        rep.seen("entry_points", "clone_from");
                     }
                 }
             }
